@@ -1,5 +1,6 @@
 (* Model of argument structure, the dependency walk (Task.dependencies + the
-   __jug_dependencies__ hooks) and argument resolution (value()).  Executable definitions only. *)
+   __jug_dependencies__ hooks), argument resolution (value()) and task invocation
+   (Task._execute).  Executable definitions only. *)
 From Coq Require Import List Arith ZArith Bool PArith.
 From JugV Require Import Model.MapReduce Model.Slice.
 Import ListNotations.
@@ -16,7 +17,10 @@ Inductive val : Type :=
 | VList (l : list val)
 | VTuple (l : list val)
 | VDict (kvs : list (key * val))
-| VTaskRef (t : tid).                   (* a Task OBJECT handed over unresolved (NoHash(task), task inside a set) *)
+| VTaskRef (t : tid)                    (* a Task OBJECT handed over unresolved (NoHash(task), task inside a set) *)
+| VApp (f : positive) (args : list val) (kwargs : list (positive * val)).
+                                        (* the free ("Herbrand") result of calling function f on these arguments:
+                                           an opaque, non-indexable object that records exactly what f received *)
 
 Inductive tlfun :=
 | FGetCheck (i n : nat)                 (* partial(_get_check, i=i, n=n): return_tuple *)
@@ -58,6 +62,25 @@ Fixpoint impl_deps (a : arg) : list tid :=
   end.
 
 (* ---- value() ------------------------------------------------------------------------------- *)
+(* outcome of resolving an argument: a value, "a needed result is not in the store"
+   (Task.load asserts can_load), or an exception raised by an operation (IndexError, KeyError, ...) *)
+Inductive res (A : Type) : Type := Ok (a : A) | Missing | Raised.
+Arguments Ok {A} a.
+Arguments Missing {A}.
+Arguments Raised {A}.
+
+Definition rbind {A B} (r : res A) (f : A -> res B) : res B :=
+  match r with Ok x => f x | Missing => Missing | Raised => Raised end.
+Definition rmap {A B} (f : A -> B) (r : res A) : res B := rbind r (fun x => Ok (f x)).
+Definition of_opt {A} (o : option A) : res A := match o with Some x => Ok x | None => Raised end.
+
+(* left to right; the first failure wins (Python evaluation order) *)
+Fixpoint rsequence {A} (l : list (res A)) : res (list A) :=
+  match l with
+  | [] => Ok []
+  | r :: t => rbind r (fun x => rmap (cons x) (rsequence t))
+  end.
+
 Definition key_eqb (a b : key) : bool :=
   match a, b with
   | KInt x, KInt y => Z.eqb x y
@@ -97,50 +120,86 @@ Definition tl_apply (f : tlfun) (o : val) : option val :=
   | FWrap => Some (VTuple [o])
   end.
 
-Definition bind {A B} (o : option A) (f : A -> option B) : option B :=
-  match o with Some x => f x | None => None end.
-
 Section Resolve.
   Variable st : tid -> option val.       (* the store: results by task *)
 
-  (* value of the blocks of a mapped sequence: each block task's result must be a sequence *)
-  Definition block_values (blocks : list tid) : option (list (list val)) :=
-    sequence_opt (map (fun b => bind (st b) seq_items) blocks).
+  Definition load (t : tid) : res val := match st t with Some v => Ok v | None => Missing end.
 
-  (* value(elem).  None = some needed result is missing or an operation raised. *)
-  Fixpoint resolve (a : arg) : option val :=
+  (* value(block task) as a sequence (res.extend(value(blk))) *)
+  Definition block_items (b : tid) : res (list val) := rbind (load b) (fun v => of_opt (seq_items v)).
+
+  (* element p (0 <= p) of a mapped sequence: value(self.blocks[p // bs][p % bs]) - only that block is read *)
+  Definition mapseq_elem (blocks : list tid) (bs : nat) (p : nat) : res val :=
+    match nth_error blocks (p / bs) with
+    | Some b => rbind (block_items b) (fun l => of_opt (nth_error l (p mod bs)))
+    | None => Raised
+    end.
+
+  (* value(m[i]) for the i-th position of the slice's range *)
+  Definition mapslice_elem (blocks : list tid) (bs : nat) (len : Z) (r : prange) (i : nat) : res val :=
+    match range_get r (Z.of_nat i) with
+    | Some q =>
+        let q' := if (q <? 0)%Z then (q + len)%Z else q in
+        if ((0 <=? q') && (q' <? len))%Z then mapseq_elem blocks bs (Z.to_nat q') else Raised
+    | None => Raised
+    end.
+
+  (* value(elem).  *)
+  Fixpoint resolve (a : arg) : res val :=
     match a with
-    | AVal v => Some v
-    | ATask t => st t
-    | AList xs => option_map VList (sequence_opt (map resolve xs))
-    | ATuple xs => option_map VTuple (sequence_opt (map resolve xs))
-    | ADict kvs =>
-        option_map VDict (sequence_opt (map (fun kv => option_map (fun v => (fst kv, v)) (resolve (snd kv))) kvs))
-    | AGetitem base idx => bind (resolve base) (fun o => bind (resolve idx) (fun i => val_getitem o i))
-    | AFun base f => bind (resolve base) (tl_apply f)
-    | AMapSeq blocks _ _ => option_map (fun bl => VList (mapseq_value bl)) (block_values blocks)
+    | AVal v => Ok v
+    | ATask t => load t
+    | AList xs => rmap VList (rsequence (map resolve xs))
+    | ATuple xs => rmap VTuple (rsequence (map resolve xs))
+    | ADict kvs => rmap VDict (rsequence (map (fun kv => rmap (fun v => (fst kv, v)) (resolve (snd kv))) kvs))
+    | AGetitem base idx => rbind (resolve base) (fun o => rbind (resolve idx) (fun i => of_opt (val_getitem o i)))
+    | AFun base f => rbind (resolve base) (fun o => of_opt (tl_apply f o))
+    | AMapSeq blocks _ _ => rmap (fun bl => VList (concat bl)) (rsequence (map block_items blocks))
     | AMapSlice blocks bs len r =>
-        bind (block_values blocks) (fun bl =>
-          option_map VList (sequence_opt (bslice_value
-            {| bs_base := {| ba_blocks := bl; ba_bs := bs; ba_len := len |}; bs_range := r |})))
+        rmap VList (rsequence (map (mapslice_elem blocks bs len r) (seq 0 (Z.to_nat (range_len r)))))
     | ACustom x => resolve x
-    | ANoHashVal v => Some v
-    | ANoHashTask t => Some (VTaskRef t)
-    | AOpaque _ v => Some v
+    | ANoHashVal v => Ok v
+    | ANoHashTask t => Ok (VTaskRef t)
+    | AOpaque _ v => Ok v
     end.
 End Resolve.
 
-(* ---- tasks and DAGs ------------------------------------------------------------------------ *)
+(* ---- tasks and their invocation ------------------------------------------------------------ *)
 Record task := { t_id : tid; t_fn : positive; t_args : list arg; t_kwargs : list (positive * arg) }.
 
 Definition task_deps (t : task) : list tid :=
   flat_map impl_deps (t_args t) ++ flat_map (fun kv => impl_deps (snd kv)) (t_kwargs t).
 
 (* Task._execute: args = [value(a)], kwargs = {k: value(v)} *)
-Definition task_inputs (st : tid -> option val) (t : task) : option (list val * list (positive * val)) :=
-  bind (sequence_opt (map (resolve st) (t_args t))) (fun a =>
-  bind (sequence_opt (map (fun kv => option_map (fun v => (fst kv, v)) (resolve st (snd kv))) (t_kwargs t))) (fun k =>
-  Some (a, k))).
+Definition task_inputs (st : tid -> option val) (t : task) : res (list val * list (positive * val)) :=
+  rbind (rsequence (map (resolve st) (t_args t))) (fun a =>
+  rbind (rsequence (map (fun kv => rmap (fun v => (fst kv, v)) (resolve st (snd kv))) (t_kwargs t))) (fun k =>
+  Ok (a, k))).
+
+(* The task functions of the generated programs are free constructors: what they return records
+   exactly what they received.  [fkind] says how the free result is packaged (so that tasklets can
+   index into it) or that the function raises. *)
+Inductive fkind := FkApp | FkList (n : nat) | FkTuple (n : nat) | FkDict | FkRaise.
+
+Definition fsem (k : fkind) (f : positive) (args : list val) (kw : list (positive * val)) : option val :=
+  let h := VApp f args kw in
+  match k with
+  | FkApp => Some h
+  | FkList n => Some (VList (h :: map (fun i => VInt (Z.of_nat i)) (seq 1 n)))
+  | FkTuple n => Some (VTuple (h :: map (fun i => VInt (Z.of_nat i)) (seq 1 n)))
+  | FkDict => Some (VDict [(KInt 0, h); (KInt 1, VInt 1)])
+  | FkRaise => None
+  end.
+
+(* outcome of running a task against a store *)
+Inductive fres := FRet (v : val) | FRaise | FMissing.
+
+Definition task_run (kinds : positive -> fkind) (st : tid -> option val) (t : task) : fres :=
+  match task_inputs st t with
+  | Ok (a, k) => match fsem (kinds (t_fn t)) (t_fn t) a k with Some v => FRet v | None => FRaise end
+  | Missing => FMissing
+  | Raised => FRaise
+  end.
 
 (* ---- executable equality on values (case files) --------------------------------------------- *)
 Definition oz_eqb (a b : option Z) : bool :=
@@ -168,9 +227,41 @@ Fixpoint val_eqb (a b : val) : bool :=
          | _, _ => false
          end) l l'
   | VTaskRef x, VTaskRef y => Pos.eqb x y
+  | VApp f l k, VApp f' l' k' =>
+      Pos.eqb f f' &&
+      (fix go (l l' : list val) : bool :=
+         match l, l' with
+         | [], [] => true
+         | x :: t, y :: t' => val_eqb x y && go t t'
+         | _, _ => false
+         end) l l' &&
+      (fix go (l l' : list (positive * val)) : bool :=
+         match l, l' with
+         | [], [] => true
+         | (n, x) :: t, (n', y) :: t' => Pos.eqb n n' && val_eqb x y && go t t'
+         | _, _ => false
+         end) k k'
+  | _, _ => false
+  end.
+
+Definition res_eqb {A} (eqb : A -> A -> bool) (a b : res A) : bool :=
+  match a, b with
+  | Ok x, Ok y => eqb x y
+  | Missing, Missing | Raised, Raised => true
+  | _, _ => false
+  end.
+
+Definition fres_eqb (a b : fres) : bool :=
+  match a, b with
+  | FRet x, FRet y => val_eqb x y
+  | FRaise, FRaise | FMissing, FMissing => true
   | _, _ => false
   end.
 
 (* set-equality of task lists (order and multiplicity of Task.dependencies() are not specified) *)
 Definition tids_subset (a b : list tid) : bool := forallb (fun x => existsb (Pos.eqb x) b) a.
 Definition tids_seteq (a b : list tid) : bool := tids_subset a b && tids_subset b a.
+
+(* association-list stores for the case files *)
+Fixpoint st_of (l : list (tid * val)) (t : tid) : option val :=
+  match l with [] => None | (k, v) :: r => if Pos.eqb k t then Some v else st_of r t end.
